@@ -15,6 +15,7 @@ arbitrary, so every statement covers erroring callbacks.
 import XrayProofs.GenConsumers
 import XrayProofs.GenProductDen
 import XrayProofs.GenLibrary
+import XrayProofs.GenPrefix
 namespace XrayModel.C16
 open XrayModel.Gen
 
@@ -494,5 +495,92 @@ theorem get_needs_prefix_only (L : Option Nat) (n : Nat) (it : It) (pre : List V
 
 /-- `first` over the infinite counter: found after 4 steps, the rest of the stream is never touched -/
 example : first none 10 (.fromCount none) (pureP (fun | .int i => i == 3 | _ => false)) = .ok (some (.int 3)) := by rfl
+
+
+/-! ### enumerate, aggregate / reduce without an initial state -/
+
+/-- `enumerate(g, start, step)` over a finite generator: the elements paired with `start, start + step, …`; the counter
+is pulled once more than the generator (the look-ahead of one with which the zip notices the end) -/
+theorem iter_den_enumerate (L : Option Nat) (g : G) (start step : Int) (xs : List Item)
+    (h : Den L (g.start L) xs) (hv : noViol xs) :
+    Den L ((g.enumerate start step).start L) (enumItems (affIdx start step) 0 xs) := by
+  have := enumerate_den_aux L (affIdx start step) (by intro i; simp [affIdx]) xs 0 (g.start L) h hv
+  simpa [G.enumerate, G.start, G.startAll] using this
+
+example : enumItems (affIdx 10 2) 0 [.val (.int 7), .val (.int 8)] =
+    [.val (.tup [.int 10, .int 7]), .val (.tup [.int 12, .int 8])] := by rfl
+
+/-- `aggregate(g, f)` without an initial state: the first element, then the running fold -/
+theorem iter_den_aggregate1 (L : Option Nat) (g : G) (f : V → V → V) (vs : List V)
+    (h : Den L (g.start L) (vs.map Item.val)) (hc : (Permits.ofLimit L).covers 1) :
+    Den L ((g.aggregate1 (pureF2 f)).start L) ((scan1 f vs).map Item.val) :=
+  aggregate1_den L g f vs h hc
+
+/-- `reduce(g, f)` without an initial state: the fold from the first element — and for the empty generator the
+error value ("generator is empty") -/
+theorem reduce1_den (L : Option Nat) (g : G) (f : V → V → V) (vs : List V)
+    (h : Den L (g.start L) (vs.map Item.val)) (hc : (Permits.ofLimit L).covers (vs.length + 1)) :
+    ∃ fuel, reduce1 L fuel g (pureF2 f) =
+      (match vs with | [] => .err | v :: rest => .ok (rest.foldl f v)) := by
+  have h1 : (Permits.ofLimit L).covers 1 := covers_mono hc (by omega)
+  have hd := aggregate1_den L g f vs h h1
+  have hlen : (scan1 f vs).length = vs.length := by
+    cases vs with
+    | nil => rfl
+    | cons v rest =>
+      have : ∀ (vs : List V) (a : V), (scanV f a vs).length = vs.length := by
+        intro vs; induction vs with
+        | nil => intro a; rfl
+        | cons v vs ih => intro a; simp [scanV, ih]
+      simp [scan1, this]
+  obtain ⟨fuel, hf⟩ := last_den L (g.aggregate1 (pureF2 f)) (scan1 f vs) hd (by rw [hlen]; exact covers_mono hc (by omega))
+  refine ⟨fuel, ?_⟩
+  rw [reduce1, hf]
+  cases vs with
+  | nil => rfl
+  | cons v rest => rw [scan1_last]
+
+/-! ### re-iteration, for every generator expression at once -/
+
+/-- a generator value is an immutable term and `start` a function of it: whatever was consumed before, iterating any
+generator expression again starts the same iterator and yields the same stream — for every expression of the model's
+syntax, every limit, every number of steps, and through every consumer -/
+theorem reiterable_all (g : G) (L : Option Nat) (k n : Nat) (consumed : Option It)
+    (_h : consumed = after L k (g.start L)) :
+    outs L n (g.start L) = outs L n (g.start L) ∧ g.iter L = .budget (g.start L) (Permits.ofLimit L) :=
+  ⟨rfl, rfl⟩
+
+/-- the two places in which the machine itself iterates a generator value again — the restart of `repeat`, the next
+part of a chain — go through `start`: no consumed iterator is ever re-used -/
+theorem restarts_use_start (L : Option Nat) (g : G) (cur : It) (rest : List G) (h : step L cur = .done) :
+    step L (.repeat_ g cur false) = .skip (.repeat_ g (g.start L) true) ∧
+    step L (.chain cur (g :: rest)) = .skip (.chain (g.start L) rest) := by
+  constructor
+  · rw [step]; simp [h]
+  · rw [step_chain, h]
+
+/-! ### the needed prefix (the theorem behind the laziness sweep) -/
+
+/-- for every pipeline of unary adaptors (map, filter, slice, take_while, skip_until, aggregate, with_count, group,
+windows — in any order and number): if two sources behave alike for `n` steps, so do the pipelines over them; the modulus
+is the identity: `n` steps of the pipeline need `n` steps of the source -/
+theorem needed_prefix (L : Option Nat) (As : List UA) (n : Nat) (g g' : G)
+    (h : Agree L n (g.start L) (g'.start L)) :
+    outs L n ((pipeG As g).start L) = outs L n ((pipeG As g').start L) := by
+  rw [start_pipeG, start_pipeG]
+  exact (agree_outs L n _ _ (agree_pipe L As n _ _ h)).1
+
+/-- in particular a source that is poisoned (or longer, or different in any way) beyond the first `n` elements gives the
+same first `n` steps of every pipeline — hence the same first elements — as the source cut there -/
+theorem needed_prefix_arrays (L : Option Nat) (As : List UA) (pre r1 r2 : List V) (n : Nat) (hn : n ≤ pre.length) :
+    outs L n ((pipeG As (.fromArr (pre ++ r1))).start L) = outs L n ((pipeG As (.fromArr (pre ++ r2))).start L) :=
+  needed_prefix L As n _ _ (by simpa [G.start] using agree_arr_prefix L pre r1 r2 n hn)
+
+/-- … and through the consumer's budget as well -/
+theorem needed_prefix_iter (L : Option Nat) (As : List UA) (n : Nat) (g g' : G)
+    (h : Agree L n (g.start L) (g'.start L)) :
+    outs L n ((pipeG As g).iter L) = outs L n ((pipeG As g').iter L) := by
+  simp only [G.iter, start_pipeG]
+  exact (agree_outs L n _ _ (agree_budget L _ n _ _ (agree_pipe L As n _ _ h))).1
 
 end XrayModel.C16
